@@ -94,6 +94,8 @@ class InitialMesh:
                 self.nbrs[edge] = elem
 
     def vertex_from_coords(self, xy):
+        # Accept tuples, lists and (2, 1) arrays alike.
+        xy = np.asarray(xy).flatten()
         result = None
         for vtx in self.vertices:
             if isclose(vtx.x, xy[0]) and isclose(vtx.y, xy[1]):
